@@ -301,11 +301,12 @@ E4_FAMILIES = [
     ("loop", "loop with every choice of (pre-header, body, exit) instruction (2744)"),
     ("call", "call between every pair of instructions (196)"),
     ("arith", "every 3-instruction body over a 14-instruction arithmetic alphabet: constants, lui, mul/mulhu/div/rem, division by zero, shifts by large amounts, x0-sourced compares, la/lw (2744; thorough: 4 instructions, 38416)"),
-    ("ecall", "environment calls with a known service number between every (before, after) pair of argument/result uses, and an Exit2 arm (180)"),
+    ("ecall", "environment calls with a known service number between every (before, after) pair of argument/result uses, and an Exit2 arm, incl. constants the tool's table does not list (228)"),
     ("csr", "every 3-instruction body over an 8-instruction CSR alphabet (512)"),
-    ("csr2", "every 3-instruction body over 9 read/write/set/clear instructions on one CSR (729)"),
-    ("callret", "argument and return-value traffic across a call: every (before, after) pair in the caller x every 2-instruction callee body over 7 instructions (980)"),
-    ("handler", "interrupt handlers (registered through utvec): every 3-instruction body over 9 spill/reload/CSR instructions between the two uscratch swaps (683)"),
+    ("csr2", "every 3-instruction body over 9 read/write/set/clear instructions on one CSR (729; thorough: 4 instructions, 6561)"),
+    ("callret", "argument and return-value traffic across a call: every (before, after) pair in the caller x every 2-instruction callee body over 7 instructions (1470; thorough: 3-instruction callee bodies, 10290)"),
+    ("handler", "interrupt handlers (registered through utvec): every 3-instruction body over 11 spill/reload/CSR instructions between the two uscratch swaps (1247; thorough: 4 instructions)"),
+    ("cfg", "control-flow shapes: three slots between three labels, each a branch / jump / call / exit or print ecall / plain instruction, 12^3 (1728)"),
     ("mix", "every (stack, arithmetic, stack) instruction triple from the two alphabets (2744)"),
     ("fp", "a function keeping a frame pointer, with every pair of instructions from the stack alphabet plus sp moves in between (324)"),
     ("func", "every function body of 1-3 instructions over a 10-instruction save/restore alphabet, between the frame push and pop (1110; thorough: 1-4, 11110)"),
@@ -379,6 +380,25 @@ prop("C13",
 # (lextok_unicode_escape - real Lexer::next() on a string literal whose \uXXXX escape has four symbolic hex digits - was
 # built and measured: 1500 s cap reached.  Together with the four-symbolic-layout-characters attempt this closes the
 # token level for C09: nothing that makes Lexer::next see a symbolic character fits.)
+
+# ---------------------------------------------------------------------------
+# C03 (coverage and justification of edges): engine E6 on the same program families
+for fam, d in E4_FAMILIES:
+    side("e6_" + fam, "e6", ["C03"], symbolic="register file (31 x BitVec 32)",
+         desc="E6: %s - for every reachable instruction node and all register contents the architectural next pc inside the function "
+              "(fall-through, taken/untaken branch, jump, return point of a call, continuation of a non-exit ecall) is the address of a "
+              "successor; successor/predecessor relations are inverse; every edge is a fall-through, the written label or a return merged "
+              "into the function's exit; no edge leaves an exit ecall" % d,
+         bounds="program family enumerated exhaustively; instruction k at address 4k", family=fam)
+side("e6_seq4", "e6", ["C03"], tier="thorough", symbolic="as above", desc="E6: every 4-instruction body over the alphabet", bounds="exhaustive", family="seq4")
+prop("C03",
+     outside="the unreachable-code diagnostic (a lint); indirect jumps (jalr other than ret); fall-through from one function into another and "
+             "running off the end of the text; programs outside the enumerated families; Cfg::new / NodeDirectionPass / EcallTerminationPass / "
+             "EliminateDeadCodeDirectionsPass as code (only seen through the finished graph)",
+     assumptions=["z3 4.8.12", "instruction k of the program (in CFG iteration order) sits at address 4k; a label is the address of the instruction it is attached to",
+                  "an ecall's service number is the constant loaded by the preceding `li a7, N` (otherwise: some execution continues)",
+                  "a call returns to the instruction after it (callees respect the convention)",
+                  "only nodes reachable along the graph's own edges from an entry are examined (the first missing edge on a real path starts at such a node)"])
 
 # ---------------------------------------------------------------------------
 # C02 (soundness clause only): engine E5 - liveness as non-interference on the program families (modular across calls)
